@@ -97,7 +97,8 @@ func (c *caseRun) setupGasOnly() *op { return c.setupOps()[0] }
 
 func init() {
 	corpus = append(corpus, corpusCase{
-		// whitelisted fee of a method set twice (0, then 0.05 GAS), restart of B, then the method is invoked
+		// (fixed by cb24446, kept as regression case) whitelisted fee of a method set twice (0, then 0.05 GAS),
+		// restart of B, then the method is invoked
 		name: "whitelist-fee-updated-then-restart", csize: 2, vcount: 1, extra: 2, blocks: 9,
 		gen: func(c *caseRun, h uint32) []*op {
 			w := c.w
